@@ -7,6 +7,8 @@
 (*                                                                                          *)
 (* For Find Information 0x04, Read By Type 0x08, Read By Group Type 0x10 and Find By Type   *)
 (* Value 0x06 with (start, end, type [, value]):                                            *)
+(*   - attribute types are UUIDs: a 16 bit UUID and its 128 bit form 0000xxxx-0000-1000-8000-  *)
+(*     00805F9B34FB are the same type (Expand / TypeEq), every other 128 bit value is not;   *)
 (*   - Error Response `Invalid Handle` iff start = 0 or start > end;                        *)
 (*   - Error Response `Attribute Not Found` iff no attribute in start..end matches;         *)
 (*   - otherwise the response carries a NON-EMPTY PREFIX of the matching attributes in      *)
@@ -47,7 +49,8 @@ IsDiscovery(in) ==
 \* parsed request
 Rq(in) == [op |-> in[1], s |-> U16(in, 2), e |-> U16(in, 4),
            type  |-> IF in[1] = OpFindInfo THEN <<>> ELSE IF in[1] = OpFindByTypeValue THEN SubSeq(in, 6, 7) ELSE SubSeq(in, 6, Len(in)),
-           value |-> IF in[1] = OpFindByTypeValue THEN SubSeq(in, 8, Len(in)) ELSE <<>>]
+           value |-> IF in[1] = OpFindByTypeValue THEN SubSeq(in, 8, Len(in)) ELSE <<>>,
+           loose |-> FALSE]      \* Find By Type Value only: compare the value as a UUID (see Matches)
 
 BadRange(r) == r.s = 0 \/ r.s > r.e
 IsGroup(a) == a.kind \in {"primary", "secondary"}
@@ -56,7 +59,12 @@ Matches(r, a) ==
     CASE r.op = OpFindInfo        -> TRUE
       [] r.op = OpReadByType      -> TypeEq(a.type, r.type)
       [] r.op = OpReadByGroupType -> IsGroup(a) /\ TypeEq(a.type, r.type)
-      [] r.op = OpFindByTypeValue -> TypeEq(a.type, r.type) /\ a.val = r.value
+      \* ATT compares the attribute *value* octet by octet (Vol 3 Part F 3.4.3.3): that is what must match. A server
+      \* may in addition treat a 16 bit service UUID and its 128 bit Bluetooth base UUID form as the same value
+      \* (r.loose); any other value - a near alias with other bits set, a longer value that merely starts with
+      \* the attribute's value - never matches.
+      [] r.op = OpFindByTypeValue -> TypeEq(a.type, r.type)
+                                       /\ IF r.loose THEN Expand(a.val) = Expand(r.value) ELSE a.val = r.value
 
 InRange(r, a) == a.h >= r.s /\ a.h <= r.e
 Matching(t, r) == SelectSeq(t, LAMBDA a : InRange(r, a) /\ Matches(r, a))
@@ -131,11 +139,13 @@ Served(t, r, out, mtu, enc) ==
             /\ \/ ~Readable(m[1], enc) /\ IsErrorCode(out, r.op, ReadErrors)
                \/ (\A i \in 1..Len(m) : ~Readable(m[i], enc)) /\ IsErrorCode(out, r.op, {ErrAttributeNotFound})
 
+LooseOpts(r) == IF r.op = OpFindByTypeValue THEN {FALSE, TRUE} ELSE {FALSE}
+
 ResponseOK(t, in, out, mtu, enc) ==
     LET r == Rq(in) IN
     /\ Len(out) <= mtu
-    /\ CASE Support(r) = "must" -> Served(t, r, out, mtu, enc)
-         [] Support(r) = "may"  -> Served(t, r, out, mtu, enc) \/ IsError(out, r.op)
+    /\ CASE Support(r) = "must" -> \E lo \in LooseOpts(r) : Served(t, [r EXCEPT !.loose = lo], out, mtu, enc)
+         [] Support(r) = "may"  -> (\E lo \in LooseOpts(r) : Served(t, [r EXCEPT !.loose = lo], out, mtu, enc)) \/ IsError(out, r.op)
          [] OTHER               -> IsError(out, r.op)
 
 \* ---------------------------------------------------------------------------- enumeration (client view)
